@@ -16,7 +16,18 @@ Stages of run(ctx)
   5. bulk: 10^5 / 10^7 seeded nanosecond-resolution cases judged with exact
      arithmetic (Go math/big; every written record re-judged here).
   6. the exported entry points main() calls, against HTTPS peers with shifted
-     clocks / dead peers; the shape of the call sites in robustirc.go.
+     clocks / dead peers / peers answering without a time; the two call sites in
+     main() on the real binary (restart with known peers, -join) with fake peers.
+
+Verdicts: a VIOLATION only when a property predicate (sound / names / disabled /
+non-answering) is false on a decision of the real code; TimeGuard!Decision vs
+code mismatches with all predicates true are DRIFT; everything else exit 2.
+
+Defect on the pinned tree (F17, proposed_fixes/F17-timesafeguard-duration-overflow.diff):
+worstCaseDrift wraps around for clocks more than ~292 years apart (time.Time.Sub
+saturates, `-drift` of the minimum and `drift + roundtrip` overflow to a negative
+value) and the peer counts as in sync; signatures c19/sound/duration-overflow and
+c19/names/duration-overflow.  TimeGuard.tla models the intended (unbounded) arithmetic.
 """
 import concurrent.futures
 import json
